@@ -7,14 +7,14 @@ import vlib
 import sim_common
 
 SRC = sim_common.SRC + [os.path.join(vlib.VERIF, "engines", "pmpi_shim.c")]
-LAYOUTS = [(2, 1), (2, 2), (3, 2), (4, 2), (2, 4), (3, 1), (4, 1), (2, 3)]
+LAYOUTS = [(2, 2), (3, 2), (2, 1), (4, 2), (2, 4), (2, 3), (3, 2), (2, 2)]
 
 
 def mpi_exe(flavour="asan"):
     return vlib.build_engine("sim_mpi", SRC, flavour=flavour, transport="mpi", extra=["-DSIM_MPI"])
 
 
-def make_cases(prop, tier, seed, n, variants=(0,), fp_levels=(2, 3, 1), layouts=None, gvts=None, ckpts=None, fault_rates=(0, 40, 8), flavours=("asan",),
+def make_cases(prop, tier, seed, n, variants=(0,), fp_levels=(2, 3, 1), layouts=None, gvts=None, ckpts=None, fault_rates=(0, 40, 0, 16), flavours=("asan",),
                model_base=None, same_model_group=1):
     exes = {fl: mpi_exe(fl) for fl in flavours}
     lay = layouts or LAYOUTS
@@ -28,7 +28,10 @@ def make_cases(prop, tier, seed, n, variants=(0,), fp_levels=(2, 3, 1), layouts=
         fl = flavours[k % len(flavours)]
         cases.append({"mseed": base + g, "size": 0, "ranks": r, "threads": t, "ckpt": ck[(k * 3 + g) % len(ck)], "gvt": gv[(k * 5 + g) % len(gv)],
                       "pseed": seed * 7919 + k, "fp": fp_levels[k % len(fp_levels)], "variant": variants[k % len(variants)], "fault": fault_rates[k % len(fault_rates)],
-                      "exe": exes[fl], "flavour": fl, "k": k})
+                      "exe": exes[fl], "flavour": fl, "k": k,
+                      # destination laws under which no rank can run far ahead on its own (ring / uniform): with the self-heavy and hot-spot
+                      # laws one rank floods the others with speculative traffic and GVT rounds over MPI take seconds (no flow control in the core)
+                      "dest": (1, 2, 2)[k % 3]})
     return cases
 
 
@@ -39,7 +42,7 @@ def run_one(c, timeout):
         os.remove(f)
     cmd = ["mpiexec", "--allow-run-as-root", "--oversubscribe", "--bind-to", "none", "-n", str(c["ranks"]),
            c["exe"], str(c["mseed"]), str(c["size"]), str(c["threads"]), str(c["ckpt"]), str(c["gvt"]), str(c["pseed"]), str(c["fp"]), str(c["variant"])]
-    env = {"VERIF_OUT": out, "VERIF_MPI_FAULT": str(c["fault"]), "OMPI_MCA_btl": "self,vader,tcp", "OMPI_MCA_rmaps_base_oversubscribe": "1"}
+    env = {"VERIF_OUT": out, "VERIF_MPI_FAULT": str(c["fault"]), "VM_FORCE_DEST": str(c.get("dest", 2)), "OMPI_MCA_btl": "self,vader,tcp", "OMPI_MCA_rmaps_base_oversubscribe": "1"}
     res = vlib.run_case(cmd, timeout=timeout, env=env,
                         tag="m%d/%dx%d/ck%d/g%d/p%d/fp%d/v%d/f%d" % (c["mseed"], c["ranks"], c["threads"], c["ckpt"], c["gvt"], c["pseed"], c["fp"], c["variant"], c["fault"]))
     texts = []
@@ -139,7 +142,7 @@ def run_mpi_cases(chk, cases, timeout=240, retries=1):
                     if bad:
                         chk.violation("lp-not-reported-exactly-once-across-ranks", "%s: LPs %s reported by ranks %s" % (res.tag, bad[:6], [owners.get(b) for b in bad[:6]]), {"cmd": res.cmd}, prop="C14")
             out.append((c, res, texts, anomaly))
-            if anomaly and anomaly.startswith(("hang:", "san:", "slow:")) and (chk.prop not in ("C08", "C11") or anomaly.startswith("slow:")):
+            if anomaly and anomaly.startswith(("hang:", "san:")) and chk.prop not in ("C08", "C11"):
                 c2 = dict(c)
                 c2["pseed"] = c["pseed"] + 1000003 * (attempt + 1)
                 again.append(c2)
